@@ -29,7 +29,12 @@ import (
 	"strings"
 )
 
-var instrPackages = []string{"dagsync", "dagsync/ipnisync", "announce", "pcache"}
+// announce/p2psender and announce/httpsender: what the receiver and the
+// subscriber call to send; they use no synchronisation of their own today, and
+// whatever they may come to use has to be seen by the scheduler (a goroutine
+// waiting for an uninstrumented mutex hangs the execution instead of being
+// reported).
+var instrPackages = []string{"dagsync", "dagsync/ipnisync", "announce", "announce/p2psender", "announce/httpsender", "pcache"}
 
 const shimBase = "github.com/ipni/go-libipni/verifshim/"
 
